@@ -12,7 +12,12 @@ use atomic_refcell::{AtomicRef, AtomicRefCell, AtomicRefMut};
 use crossbeam::deque::{self, Stealer};
 use crossbeam::queue::ArrayQueue;
 use std::sync::atomic::Ordering;
+#[cfg(not(feature = "verif"))]
 use std::sync::{Arc, Mutex};
+#[cfg(feature = "verif")]
+use crate::util::verif::sync::Mutex;
+#[cfg(feature = "verif")]
+use std::sync::Arc;
 
 /// Represents the ID of a GC worker thread.
 pub type ThreadId = usize;
@@ -180,6 +185,10 @@ impl<VM: VMBinding> GCWorker<VM> {
             self.scheduler.work_buckets[bucket].add_prioritized(Box::new(work));
             return;
         }
+        #[cfg(feature = "verif")]
+        crate::util::verif::rt::sched_point(crate::util::verif::rt::Kind::LocalQueue, self.ordinal);
+        #[cfg(feature = "verif")]
+        crate::util::verif::rt::event_str("packet_add", work.get_type_name(), bucket as usize, 1);
         self.local_work_buffer.push(Box::new(work));
     }
 
@@ -193,6 +202,10 @@ impl<VM: VMBinding> GCWorker<VM> {
             self.scheduler.work_buckets[bucket].add(work);
             return;
         }
+        #[cfg(feature = "verif")]
+        crate::util::verif::rt::sched_point(crate::util::verif::rt::Kind::LocalQueue, self.ordinal);
+        #[cfg(feature = "verif")]
+        crate::util::verif::rt::event_str("packet_add", work.get_type_name(), bucket as usize, 1);
         self.local_work_buffer.push(Box::new(work));
     }
 
@@ -213,7 +226,11 @@ impl<VM: VMBinding> GCWorker<VM> {
     /// 3. Poll from open global work-buckets
     /// 4. Steal from other workers
     fn poll(&mut self) -> PollResult<VM> {
+        #[cfg(feature = "verif")]
+        crate::util::verif::rt::sched_point(crate::util::verif::rt::Kind::Designated, self.ordinal);
         if let Some(work) = self.shared.designated_work.pop() {
+            #[cfg(feature = "verif")]
+            crate::util::verif::rt::event_str("designated_pop", work.get_type_name(), self.ordinal, 0);
             return Ok(work);
         }
 
@@ -246,6 +263,8 @@ impl<VM: VMBinding> GCWorker<VM> {
         self.scheduler.resolve_affinity(self.ordinal);
         self.tls = tls;
         self.copy = crate::plan::create_gc_worker_context(tls, mmtk);
+        #[cfg(feature = "verif")]
+        crate::util::verif::rt::event("worker_run", self.ordinal, 0);
         loop {
             // Instead of having work_start and work_end tracepoints, we have
             // one tracepoint before polling for more work and one tracepoint
@@ -271,7 +290,11 @@ impl<VM: VMBinding> GCWorker<VM> {
             std::hint::black_box(unsafe { *(typename.as_ptr()) });
 
             probe!(mmtk, work, typename.as_ptr(), typename.len());
+            #[cfg(feature = "verif")]
+            crate::util::verif::rt::event_str("packet_start", typename, self.ordinal, 0);
             work.do_work_with_stat(&mut self, mmtk);
+            #[cfg(feature = "verif")]
+            crate::util::verif::rt::event_str("packet_end", typename, self.ordinal, 0);
         }
         debug!(
             "Worker exiting. ordinal: {}, {}",
@@ -280,6 +303,8 @@ impl<VM: VMBinding> GCWorker<VM> {
         );
         probe!(mmtk, gcworker_exit);
 
+        #[cfg(feature = "verif")]
+        crate::util::verif::rt::event("worker_exit", self.ordinal, 0);
         mmtk.scheduler.surrender_gc_worker(self);
     }
 }
@@ -409,6 +434,8 @@ impl<VM: VMBinding> WorkerGroup<VM> {
 
         // We transfer the ownership of each `GCWorker` instance to a GC thread.
         for worker in workers {
+            #[cfg(feature = "verif")]
+            crate::util::verif::rt::event("spawn", worker.ordinal, 0);
             VM::VMCollection::spawn_gc_thread(tls, GCThreadContext::<VM>::Worker(worker));
         }
 
